@@ -20,16 +20,20 @@ EXTENDS Mux, Json, IOUtils
 Rec == ndJsonDeserialize(IOEnv.TRACE)
 Kinds == {"csent", "cclose", "cgot", "cother", "end"}
 InitSt(e) == [via |-> IF "consts" \in DOMAIN e THEN e.consts.via ELSE "",
-              sent |-> [up |-> 0, down |-> 0], closed |-> [up |-> FALSE, down |-> FALSE], n |-> 0]
+              sent |-> [up |-> 0, down |-> 0], closed |-> [up |-> FALSE, down |-> FALSE],
+              reset |-> [up |-> FALSE, down |-> FALSE], n |-> 0]
 Ok(s)      == [ok |-> TRUE, st |-> s, why |-> "", dev |-> "", site |-> ""]
 No(s, why) == [ok |-> FALSE, st |-> s, why |-> why, dev |-> "", site |-> ""]
 Dv(s, d, site) == [ok |-> TRUE, st |-> s, why |-> "", dev |-> d, site |-> site]
 Apply(s, e) ==
     CASE e.ev = "csent" -> Ok([s EXCEPT !.sent[e.dir] = e.n])
-      [] e.ev = "cclose" -> Ok([s EXCEPT !.closed[e.dir] = TRUE])
+      [] e.ev = "cclose" -> Ok([s EXCEPT !.closed[e.dir] = TRUE, !.reset[e.dir] = (e.how = "reset")])
       [] e.ev = "cgot" ->
             LET f == [NewFlow EXCEPT !.sub = s.sent[e.dir], !.dlv = e.n, !.fin = s.closed[e.dir], !.eof = e.eof] IN
             IF e.n > s.sent[e.dir] THEN No(s, "the reader received more bytes than were sent")
+            \* an abortive close may discard what was under way; end-of-stream must still reach the other side
+            ELSE IF s.reset[e.dir] THEN (IF e.eof THEN Ok([s EXCEPT !.n = @ + 1])
+                                         ELSE No(s, "the writer aborted but the opposite endpoint never observed end-of-stream"))
             ELSE IF e.eof /\ ~EofOk(f) THEN No(s, "end-of-stream was observed before all data sent before the close had arrived (or without a close)")
             ELSE IF e.n < s.sent[e.dir] THEN No(s, "data sent before the close never arrived")
             ELSE IF s.closed[e.dir] /\ ~e.eof THEN No(s, "the writer finished but the opposite endpoint never observed end-of-stream")
